@@ -13,7 +13,8 @@ var vKindNames = []string{"plain", "BIRT", "RESI", "EVEN", "DATE", "_UID", "NAME
 func vDateValue(name string) string {
 	switch VsChoose(name+".dateform", 5) {
 	case 0:
-		return VsDecimal(VsInt(name+".y", 1000, 2999), 4)
+		// (year 0000 included: it parses, but to the zero date)
+		return VsDecimal(VsInt(name+".y", 0, 2999), 4)
 	case 1:
 		VsClass("constrained-date")
 		return "Abt. " + VsDecimal(VsInt(name+".y", 1000, 2999), 4)
